@@ -30,7 +30,7 @@ Extraction "model.ml"
   s_action s_timing_advert s_atim s_rts s_cts
   random_mac g_dump_mem a_dump_mem dump_tag_mem
   parse_beacon parse_probe_resp parse_assoc_resp parse_reassoc_resp parse_probe_req parse_assoc_req parse_reassoc_req
-  parse_deauth parse_disassoc get_rsn_info get_wpa_info enumerate_rsn enumerate_wpa
+  parse_deauth parse_disassoc handle_msft bss0 get_rsn_info get_wpa_info enumerate_rsn enumerate_wpa
   s_parse_beacon s_parse_probe_resp s_parse_assoc_resp s_parse_reassoc_resp s_parse_probe_req s_parse_assoc_req s_parse_reassoc_req s_parse_reason
   s_rsn_decode s_wpa_decode s_rsn_flags s_wpa_flags
   sk_gen_scenario sk_parse_scenario sk_add_detail sk_free_action sk_run sk_free live_blocks heap0 tobj0 dobj0 h_free.
